@@ -199,8 +199,19 @@ class Lib:
                 combos = [(a, b) for a in perms for b in perms][1:]
                 if relabels < len(combos):
                     combos = ctx.rng.sample(combos, relabels)
-                for s0, s1 in combos:
+                for ci, (s0, s1) in enumerate(combos):
                     r = self.impl_block(G.relabel(ph0, s0), G.relabel(ph1, s1))
+                    if ci == 0:
+                        # the relabelling of the theorems (`relabelHaps`, Props.C11.poly_perm_invariant) is the harness's one,
+                        # and the model of the current code on the relabelled block is what the implementation reports
+                        def cbr(req, ans, r=r, s0=s0, s1=s1):
+                            if ans["ph0"] != G.relabel(ph0, s0) or ans["ph1"] != G.relabel(ph1, s1):
+                                ctx.disagree("c11.relabel:haplotypes", req, [G.relabel(ph0, s0), G.relabel(ph1, s1)], [ans["ph0"], ans["ph1"]])
+                            elif not block_exact(r, ans["block"]) and not keys:
+                                ctx.disagree("c11.relabel", req, show(r), ans["block"])
+                            elif p > 2 and ans["block"] != ans["orig"]:
+                                ctx.disagree("c11.relabel:model-not-invariant (contradicts poly_perm_invariant)", req, ans["orig"], ans["block"])
+                        self.ask({"op": "c11.relabel", "ph0": ph0, "ph1": ph1, "tau": list(s0), "ups": list(s1)}, cbr, may_flush=False)
                     if r != impl:
                         only_split = (r != "error" and p > 2 and all(r[k] == impl[k] for k in ("switches", "hamming", "diff"))
                                       and sum(r["sf"]) == sum(impl["sf"]))
@@ -298,6 +309,15 @@ def block_cmp(impl, ans):
         return strict and tuple(impl["sf"]) == (ans["sf"][0], ans["sf"][1]), True
     strict = strict and sum(impl["sf"]) * den == sum(ans["sf"])
     return strict, (impl["sf"][0] * den, impl["sf"][1] * den) in {tuple(x) for x in ans["sfAdm"]}
+
+
+def block_exact(impl, ans):
+    """compare_block result == model answer, the polyploid switch/flip pair included (unique for the current code)"""
+    if impl == "error" or ans == "error":
+        return impl == ans
+    den = ans["den"]
+    return ((impl["switches"], impl["hamming"], impl["diff"]) == (Fraction(ans["switches"], den), Fraction(ans["hamming"], den), ans["diff"])
+            and tuple(impl["sf"]) == (Fraction(ans["sf"][0], den), Fraction(ans["sf"][1], den)))
 
 
 # ------------------------------------------------------------------------------------------------
